@@ -303,6 +303,14 @@ fn dispatch(name: &str, a: &mut Args) -> String {
 			}
 		},
 		"update_channel_probe" => update_channel_probe(a),
+		"create_recv_probe" => {
+			let (oamt, ocltv, total, amt, cltv, under, skim, h) =
+				(a.u64(), a.u32(), a.u64(), a.u64(), a.u32(), a.bool(), a.opt_u64(), a.u32());
+			match lightning::ln::onion_payment::verif_hooks::create_recv_probe(oamt, ocltv, total, amt, cltv, under, skim, h) {
+				Ok((c, o)) => format!("Ok {} {}", c, o),
+				Err(e) => format!("Err {:?}", e).split('(').next().unwrap().split('{').next().unwrap().trim().to_string(),
+			}
+		},
 		"construct_info_bytes" => {
 			let (min, method, delta, time, cltv) = (a.opt_u64(), a.u8(), a.u32(), a.u64(), a.opt_u16());
 			match lightning::ln::inbound_payment::verif_hooks::construct_info_bytes(min, method, delta, time, cltv) {
